@@ -6,13 +6,13 @@
 package c12
 
 import (
-	"path/filepath"
-	"time"
 	"context"
 	"encoding/json"
 	"fmt"
+	"path/filepath"
 	"sort"
 	"strings"
+	"time"
 
 	eventbus "github.com/jilio/ebu"
 	"github.com/jilio/ebu/stores/sqlite"
@@ -36,9 +36,9 @@ type T3 struct {
 var subType = map[string]int{"A": 1, "B": 1, "C": 2}
 
 type Step struct {
-	K   string `json:"k"`             // sub pub
-	ID  string `json:"id,omitempty"`  // sub: subscription id
-	T   int    `json:"t,omitempty"`   // pub: event type 1..3
+	K  string `json:"k"`            // sub pub
+	ID string `json:"id,omitempty"` // sub: subscription id
+	T  int    `json:"t,omitempty"`  // pub: event type 1..3
 	// sub: publish an event of type NestT from inside the replay callback at its NestAt-th delivery (0 = never)
 	NestAt int `json:"nest_at,omitempty"`
 	NestT  int `json:"nest_t,omitempty"`
@@ -58,9 +58,9 @@ type RunSpec struct {
 }
 
 type Case struct {
-	Store  string    `json:"store"`  // memory sqlite durable
-	Stream bool      `json:"stream"` // the wrapper exposes ReadStream (memory/sqlite)
-	Batch  int       `json:"batch,omitempty"`
+	Store  string `json:"store"`  // memory sqlite durable
+	Stream bool   `json:"stream"` // the wrapper exposes ReadStream (memory/sqlite)
+	Batch  int    `json:"batch,omitempty"`
 	// Amb is a busmodel.Ambient mask (observability, hooks, handlers,
 	// persistence timeout of an hour) that must not change anything.
 	Amb int `json:"amb,omitempty"`
@@ -72,7 +72,7 @@ type Case struct {
 	// WithSubscriptionStore is given AND the event store is a
 	// SubscriptionStore too (a second, unrelated position table): the
 	// explicitly configured one is the subscription store.
-	SubVia string `json:"sub_via,omitempty"`
+	SubVia string    `json:"sub_via,omitempty"`
 	Runs   []RunSpec `json:"runs"` // a final clean run subscribing every id is appended by the interpreter
 }
 
@@ -83,24 +83,24 @@ type delivery struct {
 }
 
 type exec struct {
-	c      *Case
-	o      *vkit.Outcome
-	inner  eventbus.EventStore
-	subIn  eventbus.SubscriptionStore
-	wrap   eventbus.EventStore
-	base   *storekit.Base
-	nextN  int
-	deliv  []delivery
-	swr    map[string]bool // ids whose SubscribeWithReplay is running
+	c     *Case
+	o     *vkit.Outcome
+	inner eventbus.EventStore
+	subIn eventbus.SubscriptionStore
+	wrap  eventbus.EventStore
+	base  *storekit.Base
+	nextN int
+	deliv []delivery
+	swr   map[string]bool // ids whose SubscribeWithReplay is running
 	// events appended while a SubscribeWithReplay was running: n -> ids
-	during map[int][]string
-	curN   []int // stack of event numbers being appended (to attribute appends)
-	savedAtStart []map[string]eventbus.Offset
-	cleanup func()
-	reopen  func() error
-	plan    *storekit.FaultPlan // SQLite file store: driver-level faults
-	subOpt  eventbus.SubscriptionStore // given to WithSubscriptionStore when SubVia is option/both
-	decoy   *eventbus.MemoryStore
+	during          map[int][]string
+	curN            []int // stack of event numbers being appended (to attribute appends)
+	savedAtStart    []map[string]eventbus.Offset
+	cleanup         func()
+	reopen          func() error
+	plan            *storekit.FaultPlan        // SQLite file store: driver-level faults
+	subOpt          eventbus.SubscriptionStore // given to WithSubscriptionStore when SubVia is option/both
+	decoy           *eventbus.MemoryStore
 	anyCrashOrFault bool
 }
 
@@ -432,8 +432,8 @@ func run(c *Case) *vkit.Outcome {
 		cur = next
 	}
 	typeNames := map[string]int{eventbus.EventType(T1{}): 1, eventbus.EventType(T2{}): 2, eventbus.EventType(T3{}): 3}
-	pos := map[int]int{}        // event number -> log position (1-based)
-	L := map[int][]int{}        // type -> event numbers in log order
+	pos := map[int]int{}            // event number -> log position (1-based)
+	L := map[int][]int{}            // type -> event numbers in log order
 	offPos := map[string]int{"": 0} // offset string -> position
 	for i, se := range log {
 		var e struct {
